@@ -171,6 +171,15 @@ func c13Merged(rc *RC, g *cityGen, w, twin ingest.MutableWorld, ids []b6.Feature
 			continue
 		}
 		o := g.genOp(opMix{noInvalid: true, richTypes: true})
+		if ends := g.twinRingEnds(); k == n-1 && len(ends) > 0 && rc.Pct(50) {
+			// the last part moves an end of a ring that only its area's
+			// validation sees as closed: whether the world takes it or not,
+			// the merged change must be all or nothing
+			s := g.specs[ends[rc.Draw(len(ends))]].clone()
+			s.Lat += int32(rc.Range(1, 60))
+			o = op{Kind: "add", Spec: s}
+			rc.Probe("merged-moves-twin-ring-end")
+		}
 		g.commit(o)
 		parts = append(parts, o)
 		changes = append(changes, o.toChange())
